@@ -220,6 +220,25 @@ func (fv *FnV) fieldOf(st *State, v Val, idx int, n ast.Node) Val {
 	return Val{fmt.Sprintf("(%s_%s %s)", sn, f.Name(), v.T), fv.smt.resolve(f.Type())}
 }
 
+// assumeRange adds the well-typedness facts of a value read from memory (integer ranges)
+func (fv *FnV) assumeRange(st *State, r Val) {
+	if fv.spec || len(r.T) > 300 {
+		return
+	}
+	for _, f := range fv.smt.rangeFacts(r.T, r.Ty, 0) {
+		dup := false
+		for _, p := range st.pc {
+			if p == f {
+				dup = true
+				break
+			}
+		}
+		if !dup {
+			st.assume(f)
+		}
+	}
+}
+
 func (fv *FnV) closedHeapFact(st *State, r Val) {
 	// pointers read from the heap are nil or allocated (no dangling references)
 	if fv.smt.isHeapPtr(r.Ty) && !fv.spec && len(r.T) < 200 {
@@ -271,6 +290,7 @@ func (fv *FnV) indexVal(st *State, c, i Val, n ast.Node) Val {
 			fv.oblige(st, "safe.index", exprString(fv.prog.Fset, n), fmt.Sprintf("(and (<= 0 %s) (< %s %s))", i.T, i.T, lenT), n, nil)
 		}
 		r := Val{fmt.Sprintf("(select %s %s)", arrT, i.T), fv.smt.resolve(u.Elem())}
+		fv.assumeRange(st, r)
 		return r
 	case *types.Array:
 		if !fv.spec {
